@@ -14,6 +14,8 @@ for n in ("conf_stream_reader", "conf_stream_writer"):
 for n in ("conf_fd_reader", "conf_fd_writer"):
     job(n, "C17 C05", 10, "bounded", "call sequences of length 3 over <= 6 source bytes; one EINTR at a symbolic call; short reads", tier="thorough")
 job("fd_ownership", "C17", 4)
+job("file_handle", "C15 C17", 4)
+job("fd_block_read", "C17 C05", 10, "bounded", "one 4-byte block over a source of <= 6 bytes, short transfers of 1..4 bytes, one EINTR", extra="  unwindset nop::FdReader::Read(void *, void *) 10\n")
 for t in ("u32", "f64", "s1", "tr"):
     job("rt_%s_stream" % t, "C01", 26, tier=("quick" if t in ("u32", "f64") else "thorough"), extra="  unwindset ReadEntries 4\n  unwindset ::dec( 4\n  unwindset nop::FdReader::Read(unsigned char *) 3\n  unwindset nop::FdReader::Read(void *, void *) 10\n  unwindset nop::FdWriter::Write(unsigned char) 3\n  unwindset nop::FdWriter::Write(const void *, const void *) 10\n  unwindset nop::StreamWriter< 12\n")
 for t in ("u32", "f64", "s1"):
